@@ -2626,6 +2626,9 @@ func (f *fragment) readStorageFromArchive(r io.Reader) error {
 		return errors.Wrap(err, "opening")
 	}
 
+	// The cached block checksums describe the data that was just replaced.
+	f.checksums = make(map[int][]byte)
+
 	return nil
 }
 
